@@ -526,7 +526,20 @@ func importTar(in io.ReaderAt) (*tarFile, error) {
 }
 
 func moveRec(name string, in *tarFile, out *tarFile, picked map[string]struct{}) error {
+	return moveRecVisiting(name, in, out, picked, make(map[string]struct{}))
+}
+
+// moveRecVisiting is moveRec with the set of the names that are being moved by the callers
+// up the stack. It is used for detecting cyclic hardlinks.
+func moveRecVisiting(name string, in *tarFile, out *tarFile, picked map[string]struct{}, visiting map[string]struct{}) error {
 	name = cleanEntryName(name)
+	if name != "" {
+		if _, ok := visiting[name]; ok {
+			return fmt.Errorf("file: %q: cyclic hardlink", name)
+		}
+		visiting[name] = struct{}{}
+		defer delete(visiting, name)
+	}
 	if name == "" { // root directory. stop recursion.
 		if e, ok := in.get(name); ok {
 			// entry of the root directory exists. we should move it as well.
@@ -558,11 +571,11 @@ func moveRec(name string, in *tarFile, out *tarFile, picked map[string]struct{})
 		}
 		parent, _ = path.Split(strings.TrimSuffix(parent, "/"))
 	}
-	if err := moveRec(parent, in, out, picked); err != nil {
+	if err := moveRecVisiting(parent, in, out, picked, visiting); err != nil {
 		return err
 	}
 	if e, ok := in.get(name); ok && e.header.Typeflag == tar.TypeLink {
-		if err := moveRec(e.header.Linkname, in, out, picked); err != nil {
+		if err := moveRecVisiting(e.header.Linkname, in, out, picked, visiting); err != nil {
 			return err
 		}
 	}
